@@ -1388,6 +1388,36 @@ func TestVerifC20(t *testing.T) {
 			}
 		}
 	}
+	if vhThorough() {
+		// every pair of (field, class) cells: the same product TLC enumerates
+		inGroup := func(a, b string) bool {
+			for _, g := range groups {
+				na, nb := false, false
+				for _, x := range g {
+					na = na || x == a
+					nb = nb || x == b
+				}
+				if na && nb {
+					return true
+				}
+			}
+			return false
+		}
+		for i := range c20Fields {
+			for j := i + 1; j < len(c20Fields); j++ {
+				fa, fb := &c20Fields[i], &c20Fields[j]
+				if inGroup(fa.Path, fb.Path) {
+					continue
+				}
+				for _, ca := range c20Classes(fa) {
+					for _, cb := range c20Classes(fb) {
+						emit([]c20Abs{{fa, ca}, {fb, cb}})
+					}
+				}
+			}
+		}
+	}
+	// seeded pairs (in the thorough tier: further concretisations)
 	budget := vhEnvInt("VERIF_N", 2000)
 	for n := 0; n < budget; n++ {
 		a := singles[e.rng.Intn(len(singles))]
